@@ -14,7 +14,7 @@ enum {
 	D_KEY_MISMATCH_SIGN, D_KEY_MISMATCH_ENC, D_ENC_FOREIGN,
 	D_NO_CLIENT_CERT, D_DROP_CLIENT_CERT, D_EMPTY_CLIENT_CERT, D_DROP_CERT_VERIFY,
 	D_FOREIGN_ROOT_SAMENAME_SENT, D_FOREIGN_ROOT_OTHERNAME_SENT,
-	D_JUNK_SIGNATURE,
+	D_JUNK_SIGNATURE, D_ISSUER_BELOW_V1, D_LEAF_FAR_FUTURE, D_SUB_FAR_FUTURE,
 	D_NKINDS
 };
 static const char *g_dnames[D_NKINDS] = {
@@ -26,7 +26,7 @@ static const char *g_dnames[D_NKINDS] = {
 	"sign_key_mismatch", "tlcp_enc_key_mismatch", "tlcp_enc_cert_foreign_issuer",
 	"no_client_certificate", "client_certificate_removed", "client_certificate_empty", "certificate_verify_removed",
 	"foreign_root_same_name_sent_in_chain", "foreign_root_other_name_sent_in_chain",
-	"junk_signature",
+	"junk_signature", "issuer_below_v1_certificate", "leaf_valid_from_far_future", "intermediate_valid_from_far_future",
 };
 
 /* which defects make sense for (proto, role, depth) */
@@ -34,8 +34,9 @@ static int applicable(int d, int proto, int role, int depth)
 {
 	switch (d) {
 	case D_SUB_EXPIRED: case D_SUB_NOT_YET: case D_SUB_CA_FALSE: case D_SUB_NO_BC:
-	case D_SUB_NO_CERTSIGN: case D_FLIP_SUB:
+	case D_SUB_NO_CERTSIGN: case D_FLIP_SUB: case D_SUB_FAR_FUTURE:
 		return depth >= 2;
+	case D_ISSUER_BELOW_V1: return depth <= 2 && !(proto == P_TLCP && role == 0 && depth >= 2);   /* two extra certificates: size limit */
 	case D_PATHLEN_EXCEEDED: return depth >= 3;
 	case D_ISSUER_IS_LEAF: return !(proto == P_TLCP && role == 0 && depth >= 2);   /* size limit */
 	case D_KEY_MISMATCH_ENC: case D_ENC_FOREIGN: return proto == P_TLCP && role == 0;
@@ -168,6 +169,14 @@ static int build_defect(const Plan *p, const CredSet *good, CredSet *bad, Plan *
 	case D_SUB_NO_CERTSIGN: o.sub_ku[rng_below(&r, (uint32_t)(depth - 1))] = X509_KU_DIGITAL_SIGNATURE | X509_KU_CRL_SIGN; derive = 1; break;
 	case D_PATHLEN_EXCEEDED: o.sub_pathlen[1] = 0; derive = 1; break;
 	case D_ISSUER_IS_LEAF: o.issuer_is_leaf = 1; derive = 1; break;
+	case D_ISSUER_BELOW_V1: o.issuer_below_v1 = 1; derive = 1; break;
+	case D_LEAF_FAR_FUTURE: case D_SUB_FAR_FUTURE: {
+		/* notBefore 68..137 years ahead: differences that no longer fit 31 resp. 32 bits of seconds */
+		int64_t far = (int64_t[]){ 0x7fffffffLL + 5, 0x80000000LL + 86400, 0xfffffff0LL, 0x100000000LL - 86400 * 30, 0x100000000LL + 3600 }[rng_below(&r, 5)];
+		if (p->defect == D_LEAF_FAR_FUTURE) { o.leaf_nb = SIM_T0 + far; o.leaf_na = o.leaf_nb + 365 * 86400LL; g_win_nb = o.leaf_nb; g_win_na = o.leaf_na; }
+		else { int i = (int)rng_below(&r, (uint32_t)(depth - 1)); o.sub_nb[i] = SIM_T0 + far; o.sub_na[i] = o.sub_nb[i] + 365 * 86400LL; g_win_nb = o.sub_nb[i]; g_win_na = o.sub_na[i]; }
+		derive = 1;
+		snprintf(note, nlen, "notBefore = now+%lld s", (long long)far); break; }
 	case D_ENC_FOREIGN: o.enc_foreign = 1; derive = 1; break;
 	default: break;
 	}
